@@ -11,14 +11,24 @@
 (* <invite/>, password), otherwise only the plain ones.  At most MaxSplit stanzas    *)
 (* are delivered in two pieces (cut kinds Cuts): the remainder follows with a "rest" *)
 (* step after any calls / cancellations, before the room sends anything else.        *)
+(* At most MaxShape error replies have a shape other than the plain well-formed one  *)
+(* (ErShapes: no children, no <error/>, foreign namespace, empty, undecodable, ...;   *)
+(* see MUC!WellFormedShapes / MalformedShapes); OnlyShaped: only scripts with such a *)
+(* reply are written (the others come from another emission).  WithTail: every script *)
+(* also written with a second, well-formed exchange appended - the call still open   *)
+(* is answered by the self-presence it waits for, otherwise the client joins (again) *)
+(* and the room admits it: an exchange that must succeed, so that a serve loop which *)
+(* stopped after the earlier reply shows.                                            *)
 EXTENDS Integers, Sequences, FiniteSets, TLC, Json, SequencesExt
 
-CONSTANTS ERooms, MaxLen, MaxCalls, MaxNoise, InvFull, MaxSplit, Cuts, OutFile
+CONSTANTS ERooms, MaxLen, MaxCalls, MaxNoise, InvFull, MaxSplit, Cuts, MaxShape, ErShapes, OnlyShaped, WithTail, OutFile
 
-NoSt == [ty |-> "-", room |-> "-", nick |-> "-", call |-> "-", n |-> 0, lay |-> <<>>, pw |-> FALSE]
+NoSt == [ty |-> "-", room |-> "-", nick |-> "-", call |-> "-", n |-> 0, lay |-> <<>>, pw |-> FALSE, shape |-> "-"]
 St(ty, r, nk, c, k) == [ty |-> ty, room |-> r, nick |-> nk, call |-> c, n |-> k,
-                        lay |-> IF ty = "inv" THEN <<"u">> ELSE <<>>, pw |-> FALSE]
-Inv(lay, k, pw) == [ty |-> "inv", room |-> "r1", nick |-> "-", call |-> "-", n |-> k, lay |-> lay, pw |-> pw]
+                        lay |-> IF ty = "inv" THEN <<"u">> ELSE <<>>, pw |-> FALSE,
+                        shape |-> IF ty = "er" THEN "wf" ELSE "-"]
+Er(r, c, sh) == [St("er", r, "me", c, 0) EXCEPT !.shape = sh]
+Inv(lay, k, pw) == [ty |-> "inv", room |-> "r1", nick |-> "-", call |-> "-", n |-> k, lay |-> lay, pw |-> pw, shape |-> "-"]
 CallStep(op, r) == [op |-> op, room |-> r, call |-> "-", st |-> NoSt, cut |-> 0]
 CancelStep(c) == [op |-> "cancel", room |-> "-", call |-> c, st |-> NoSt, cut |-> 0]
 SendStep(s) == [op |-> "send", room |-> "-", call |-> "-", st |-> s, cut |-> 0]
@@ -42,7 +52,7 @@ Noise == IF InvFull THEN InvAlphabet \cup {St("oth", "-", "-", "-", 0)} ELSE Bas
 (* ([c, k]) or None; ers: calls already answered with an error; noise: noise steps so far    *)
 NoCall == [c |-> "-", k |-> "-"]
 S0 == [n |-> 0, has |-> {}, open |-> [r \in ERooms |-> NoCall], ers |-> {}, roomOf |-> <<>>, noise |-> 0,
-       partial |-> FALSE, nsplit |-> 0, pend |-> [r \in ERooms |-> "-"]]
+       partial |-> FALSE, nsplit |-> 0, pend |-> [r \in ERooms |-> "-"], nshape |-> 0]
 
 Close(ss, r) == [ss EXCEPT !.open[r] = NoCall]
 (* calls and cancellations *)
@@ -60,9 +70,11 @@ Sends(ss) ==
   {<<SendStep(St("av", r, "me", "-", 0)), IF ss.open[r].k \in {"join", "rejoin"} THEN Close(ss, r) ELSE ss>> : r \in ERooms}
   \cup {<<SendStep(St("un", r, "me", "-", 0)), IF ss.open[r].k = "leave" THEN Close(ss, r) ELSE ss>> : r \in ERooms}
   \* error answers
-  \cup {<<SendStep(St("er", ss.roomOf[i], "me", Cid(i), 0)),
-          [(IF ss.open[ss.roomOf[i]].c = Cid(i) THEN Close(ss, ss.roomOf[i]) ELSE ss) EXCEPT !.ers = @ \cup {i}]>>
-          : i \in {i \in 1..ss.n : i \notin ss.ers}}
+  \cup {<<SendStep(Er(ss.roomOf[i], Cid(i), sh)),
+          [(IF ss.open[ss.roomOf[i]].c = Cid(i) THEN Close(ss, ss.roomOf[i]) ELSE ss)
+             EXCEPT !.ers = @ \cup {i}, !.nshape = IF sh = "wf" THEN @ ELSE @ + 1]>>
+          : i \in {i \in 1..ss.n : i \notin ss.ers},
+            sh \in {"wf"} \cup (IF ss.nshape < MaxShape THEN ErShapes ELSE {})}
   \* noise
   \cup (IF ss.noise < MaxNoise THEN {<<SendStep(s), [ss EXCEPT !.noise = @ + 1]>> : s \in Noise} ELSE {})
 (* the same stanzas with only a first piece delivered now: the call it answers stays open  *)
@@ -80,10 +92,19 @@ AfterRest(ss) ==
 Ext(ss) ==
   CallSteps(ss) \cup (IF ss.partial THEN {<<RestStep, AfterRest(ss)>>} ELSE Sends(ss) \cup SplitSends(ss))
 
+(* the second exchange: the positive answer to the open call, or a new (re)join that is admitted *)
+TailRoom == CHOOSE r \in ERooms : TRUE
+TailOf(ss) ==
+  LET r == TailRoom IN
+  IF ss.open[r] # NoCall
+  THEN <<SendStep(St(IF ss.open[r].k = "leave" THEN "un" ELSE "av", r, "me", "-", 0))>>
+  ELSE <<CallStep(IF r \in ss.has THEN "rejoin" ELSE "join", r), SendStep(St("av", r, "me", "-", 0))>>
+
 (* every non-empty script in which no stanza is left half delivered *)
 RECURSIVE Gen(_, _, _)
 Gen(seq, ss, k) ==
-  (IF seq = <<>> \/ ss.partial THEN {} ELSE {seq})
+  (IF seq = <<>> \/ ss.partial \/ (OnlyShaped /\ ss.nshape = 0) THEN {}
+   ELSE {seq} \cup (IF WithTail THEN {seq \o TailOf(ss)} ELSE {}))
   \cup (IF k = 0 THEN {} ELSE UNION {Gen(Append(seq, x[1]), x[2], k - 1) : x \in Ext(ss)})
 
 Scripts == Gen(<<>>, S0, MaxLen)
